@@ -20,7 +20,10 @@ Record row := { r_addr : N; r_file : N; r_line : N; r_stmt : bool }.
    decl_file, ranges of inlined subroutines (die_ref.rs:411, :420, :448).  One range per
    function (ranges() may return several for a split function; not modelled). *)
 Record func := {
-  f_lo : N; f_hi : N; f_prolog_end : N; f_epilog : option N; f_file : option N;
+  f_lo : N; f_hi : N; f_prolog_end : N; f_epilog : option N;
+  f_epilog_end : option N;   (* since the epilogue repair: address of the first row behind the epilogue_begin row that
+                                belongs to another (file, line); None = no such row *)
+  f_file : option N;
   f_inline : list (N * N)
 }.
 
@@ -266,7 +269,10 @@ Section Step.
     let a := r_addr rw in
     match f_file f with Some fl => r_file rw =? fl | None => false end
     && negb (in_prolog f a)
-    && match f_epilog f with Some eb => negb (eb <? a) | None => true end
+    (* step.rs: skip places inside the epilogue, (eb, epilog_end); code laid out behind the epilogue is kept *)
+    && match f_epilog f with
+       | Some eb => negb ((eb <? a) && match f_epilog_end f with Some ee => a <? ee | None => true end)
+       | None => true end
     && negb (existsb (fun ir => in_rng (fst ir) (snd ir) a) (f_inline f))
     && r_stmt rw
     && negb (memN a users).
